@@ -34,7 +34,7 @@ LEVELS = {
                 technique=_T3 + " + static purity judgement"),
     "C05": dict(category="proof",
                 text="PROVED unbounded (T1) for the decreasing cover (modular: decreasing_subroutine's contract) and the two-thirds cover: every returned bin >= binsize, bins + dropped last bin = exactly the input multiset (each item used at most once), the dropped bin's total < binsize, inputs too small give zero bins; for any number of opaque items (list and dict alike). "
-                     "Three-quarters cover: PROVED for all real values and bin sizes at bounded shape (T2, n<=4 quick / n<=6 thorough, real manager class). T3 stand-ins run besides.",
+                     "Three-quarters cover: PROVED unbounded (T1) with the three value classes taken as consecutive windows of the sorted list - a library lemma whose premises (first condition upward closed, third downward closed, exactly one of the three holds of every item) are checked by the solver on the REAL conditions of the code; and PROVED without that lemma for all positive integer values and bin sizes at bounded shape (T2, n<=4 quick / n<=6 thorough, real manager class). T3 stand-ins run besides.",
                 technique=_T1 + " + " + _T2),
     "C06": dict(category="proof",
                 text="(a) each reported sum equals the total of its bin: wf is proved as class invariant of both managers (T2: every operation from an arbitrary well-formed state of every shape <=3 bins/<=2 items per bin, frame and separation included) and as postcondition of every T1/T2-verified algorithm, which touch bins only through the Binner contracts. "
@@ -66,7 +66,7 @@ LEVELS = {
                 technique=_T2 + " + " + _T3),
     "C14": dict(category="proof",
                 text="PROVED unbounded (T1): at every placement the chosen bin satisfies the textbook rule as a relation on the state at that moment - greedy: a least-loaded bin, items in non-increasing value order; round-robin: cyclic dealing; first-fit: the first bin that fits, a new bin only when none fits; best-fit: the fullest bin that fits, first among ties; decreasing cover: always the open last bin; two-thirds: one largest then smallest until covered. "
-                     "Three-quarters: PROVED for all values at bounded shape (T2) equal, bin by bin and item by item, to the reference transcription. Rule-conformance => same multiset of sums as the transcription is the meta-step A7; T3 compares against executable transcriptions besides.",
+                     "Three-quarters: PROVED unbounded (T1): open with the largest big item when its value is at least the total of the (at most two) largest medium items, otherwise with those, then fill with the smallest small item while the bin is not covered, class membership by value (under the class-window library lemma, premises solver-checked); and PROVED for all values at bounded shape (T2) equal, bin by bin and item by item, to the reference transcription. Rule-conformance => same multiset of sums as the transcription is the meta-step A7; T3 compares against executable transcriptions besides.",
                 technique=_T1 + " + " + _T2),
     "C15": dict(category="proof",
                 text="PROVED for all paths and sizes by syntactic frame/purity judgements over every function of the library (static tier): caller-owned arguments (items, sums, bins given to read-only operations) are never written directly, through an alias or through a callee (inter-procedural summaries); no function writes or memoises module-level state; no mutable default carries state. Hence results are functions of the arguments (repeatable, history-independent). T3 cross-checks with call interleavings.",
